@@ -1,5 +1,8 @@
 //! C01 (type soundness) and C02 (no run-time panics) share the opgrid engine.
+use crate::core::{guard, Stop};
 use crate::opgrid;
+use crate::ty::{belongs, Ty};
+use simplesl::variable::Variable;
 use crate::report::{Report, Violation};
 use serde_json::json;
 
@@ -103,6 +106,76 @@ fn native_results(property: &str, thorough: bool) -> (u64, Vec<Violation>) {
     (n, out)
 }
 
+/// Values built at run time from parts of related types (the C10 alphabet: every ordered pair of
+/// parts under every aggregate-building form), then *narrowed by a run-time type test* to each
+/// of a list of types and used as that type says (every element of an array taken part in an
+/// operation of the element type): the test believes the value's run-time type, so a type that
+/// does not describe the contents ends in an operation on the wrong kind of value. C02: no run
+/// panics; C01: what the arm yields is in the arm's static result type.
+fn built_values_under_type_tests(property: &str) -> (u64, Vec<Violation>) {
+    use crate::core::par_fold;
+    use crate::props::c10::{BUILT_FORMS, BUILT_PARTS};
+    use simplesl::{Code, Interpreter};
+    // (arm type, use of the bound name q, type of that use)
+    const ARMS: &[(&str, &str, &str)] = &[
+        ("[int]", "{ s := mut 0; for e in q~ { s += e * 2 }; *s }", "int"),
+        ("[float]", "{ s := mut 0.0; for e in q~ { s += e / 2.0 }; *s }", "float"),
+        ("[string]", "{ s := mut \"\"; for e in q~ { s += e + \"s\" }; *s }", "string"),
+        ("[[int]]", "{ s := mut 0; for e in q~ { for w in e~ { s += w * 2 } }; *s }", "int"),
+        ("[[float]]", "{ s := mut 0.0; for e in q~ { for w in e~ { s += w / 2.0 } }; *s }", "float"),
+        ("[(int, int)]", "{ s := mut 0; for e in q~ { s += e.0 * e.1 }; *s }", "int"),
+        ("[struct{a: int}]", "{ s := mut 0; for e in q~ { s += e.a * 2 }; *s }", "int"),
+        ("[struct{a: int, b: float}]", "{ s := mut 0.0; for e in q~ { s += e.b / 2.0 }; *s }", "float"),
+        ("[(int) -> int]", "{ s := mut 0; for e in q~ { s += e(1) * 2 }; *s }", "int"),
+        ("[mut int]", "{ s := mut 0; for e in q~ { s += *e * 2 }; *s }", "int"),
+        ("([int], int)", "{ s := mut 0; for e in q.0~ { s += e * 2 }; *s }", "int"),
+        ("[([int], int)]", "{ s := mut 0; for e in q~ { for w in e.0~ { s += w * 2 } }; *s }", "int"),
+        ("[()]", "std.len(q)", "int"),
+    ];
+    let n = BUILT_PARTS.len() * BUILT_PARTS.len() * BUILT_FORMS.len();
+    let property = property.to_string();
+    let accs = par_fold(
+        n,
+        || (Vec::<Violation>::new(), 0u64, Interpreter::with_stdlib()),
+        |(out, count, interp), j| {
+            let form = BUILT_FORMS[j % BUILT_FORMS.len()];
+            let x = BUILT_PARTS[(j / BUILT_FORMS.len()) % BUILT_PARTS.len()];
+            let y = BUILT_PARTS[j / BUILT_FORMS.len() / BUILT_PARTS.len()];
+            let build = format!("f := (x: any, y: any) -> any {{ return {} }}; f({x}, {y})", form.replace('X', "x").replace('Y', "y"));
+            // is there such a value at all?
+            if !matches!(guard(|| Code::parse(interp, &build).map(|c| c.exec())), Ok(Ok(Ok(_)))) {
+                return;
+            }
+            for (arm, usage, use_ty) in ARMS {
+                let text = format!("{build}; v := f({x}, {y}); match v {{ q: {arm} => {usage}, => (), }}");
+                *count += 1;
+                let case = json!({"kind": "program", "stdlib": true, "text": text});
+                match guard(|| Code::parse(interp, &text).map(|c| c.exec())) {
+                    Ok(Ok(Ok(v))) => {
+                        if property == "C01" && !matches!(v, Variable::Void) && !belongs(&v, &Ty::from_impl(&use_ty.parse::<simplesl::variable::Type>().unwrap())) {
+                            out.push(Violation { sig: format!("C01|built-value-under-type-test|arm={}|{form}", arm.replace('|', "/")), detail: json!({"case": case, "expected_type_of_the_result": use_ty, "value": crate::val::canon_typed(&v)}) });
+                        }
+                    }
+                    Ok(_) => {}
+                    Err(Stop::Panic(p)) => {
+                        if property == "C02" {
+                            out.push(Violation { sig: format!("C02|panic|built-value-under-type-test|arm={}|{form}|{}|{}", arm.replace('|', "/"), p.file(), p.short_msg()), detail: json!({"case": case, "panic": p.msg, "at": p.loc}) });
+                        }
+                    }
+                    Err(Stop::Exhausted) => {}
+                }
+            }
+        },
+    );
+    let mut out = Vec::new();
+    let mut count = 0;
+    for (v, k, _) in accs {
+        out.extend(v);
+        count += k;
+    }
+    (count, out)
+}
+
 pub fn run(property: &str, tier: &str) -> i32 {
     let thorough = tier == "thorough";
     let mut report = Report::new(property, tier);
@@ -123,6 +196,11 @@ pub fn run(property: &str, tier: &str) -> i32 {
         native_calls = n;
         report.violations(v);
     }
+    let built = {
+        let property = property.to_string();
+        crate::core::on_big_stack(move || built_values_under_type_tests(&property))
+    };
+    report.violations(built.1);
     let inconclusive_share = exhausted as f64 / (calls.max(1) as f64);
     let coverage = json!({
         "states": accepted,
@@ -133,6 +211,7 @@ pub fn run(property: &str, tier: &str) -> i32 {
         "host_calls": calls,
         "closure_calls": closure_calls,
         "native_function_calls_judged (stdlib sweep + file-system functions over the failure path alphabet: results inhabit the declared type (C01), no call panics (C02))": native_calls,
+        "built_values_under_type_tests (19 x 19 parts x 15 aggregate forms x 13 type arms with a typed use of every element)": built.0,
         "host_rejected_argument_tuples": host_rejected,
         "completed_with_value": values,
         "documented_errors": exec_errors,
